@@ -933,9 +933,10 @@ class VM:
         # Convert to numbers for numeric comparison
         a_num = to_number(a)
         b_num = to_number(b)
-        # Handle NaN - any comparison with NaN returns false, we return 1
+        # Any comparison with NaN is false: a value that is neither < 0,
+        # <= 0, > 0 nor >= 0 makes every relational operator answer false.
         if math.isnan(a_num) or math.isnan(b_num):
-            return 1  # NaN comparisons are always false
+            return float("nan")
         if a_num < b_num:
             return -1
         if a_num > b_num:
